@@ -1,6 +1,8 @@
 pub mod chacha_guts;
 pub mod chacha_stream;
 pub mod hashes;
+pub mod ppvnull;
+pub mod threefish;
 
 use crate::engine::Ctx;
 
@@ -15,6 +17,9 @@ pub fn run(ctx: &mut Ctx) -> bool {
         "C07" => hashes::run_c07(ctx),
         "C08" => hashes::run_c08(ctx),
         "C17" => hashes::run_c17(ctx),
+        "C09" => threefish::run_c09(ctx),
+        "C10" => threefish::run_c10(ctx),
+        "C19" => ppvnull::run_c19(ctx),
         "C11" => chacha_stream::run_c11(ctx),
         "C14" => chacha_guts::run_c14(ctx),
         "C15" => chacha_guts::run_c15(ctx),
